@@ -109,12 +109,13 @@ func annotInt(v any) (int, bool) {
 }
 
 type uniqRec struct {
-	ID     string
-	Seq    string
-	Count  int            // 0: no count attribute (means 1)
-	Sample string         // "": absent
-	Tag    string         // "": absent
-	Merged map[string]int // already merged_sample map (then Sample is empty)
+	ID        string
+	Seq       string
+	Count     int            // 0: no count attribute (means 1)
+	Sample    string         // "": absent
+	Tag       string         // "": absent
+	Merged    map[string]int // already merged_sample map (then Sample is empty)
+	TagIsText bool           // the tag value is a string even when it reads like a number
 }
 
 func (u uniqRec) weight() int {
@@ -136,7 +137,7 @@ func (u uniqRec) text() string {
 		a["sample"] = u.Sample
 	}
 	if u.Tag != "" {
-		if f, err := strconv.ParseFloat(u.Tag, 64); err == nil {
+		if f, err := strconv.ParseFloat(u.Tag, 64); err == nil && !u.TagIsText {
 			a["tag"] = f // a numeric category value (1, 2, 1.5, 1.25 ...)
 		} else {
 			a["tag"] = u.Tag
@@ -373,8 +374,16 @@ func drawUniqCase(t *simrt.Tape, thorough bool) ([]uniqRec, uniqOpts) {
 	recs := make([]uniqRec, n)
 	// category values: words, or numbers some of which share their integer part
 	tagValues := []string{"x", "y", "z"}
-	if t.Choose(3) == 2 {
+	tagIsText := false
+	switch t.Choose(5) {
+	case 2:
 		tagValues = []string{"1", "1.5", "1.25", "2", "2.5"}
+	case 3:
+		// strings that read like other things: distinct as strings, equal (or re-typed) once
+		// taken for numbers or booleans
+		tagValues, tagIsText = []string{"01", "1", "+1", "1e0", "T", "true"}, true
+	case 4:
+		tagValues, tagIsText = []string{`C:\data\`, "x", `a\b`}, true
 	}
 	for i := range recs {
 		r := uniqRec{ID: fmt.Sprintf("u%04d", i), Seq: seqs[t.Choose(len(seqs))]}
@@ -404,6 +413,7 @@ func drawUniqCase(t *simrt.Tape, thorough bool) ([]uniqRec, uniqOpts) {
 		}
 		if t.Choose(3) != 0 {
 			r.Tag = tagValues[t.Choose(len(tagValues))]
+			r.TagIsText = tagIsText
 		}
 		recs[i] = r
 	}
@@ -482,6 +492,11 @@ func runC06(rc *RunCtx) {
 		p = drawParCfg(t, len(recs))
 	}
 	uniqOBIHeaders = !large && t.Choose(3) == 2
+	for _, r := range recs {
+		if r.TagIsText {
+			uniqOBIHeaders = false // unquoted in a key=value; header these strings would be other values
+		}
+	}
 	var sb strings.Builder
 	for _, i := range perm {
 		sb.WriteString(recs[i].text())
